@@ -1125,6 +1125,28 @@ class Item:
         self.text = self.text[:fstart] + newfn + self.text[fend:]
         self.m = mask(self.text)
 
+    def r3_flat_map_collect_expr(self, fn, k):
+        """tail expression `RECV.into_iter().flat_map(|P| BODY).collect()` (BODY yields a Vec; no early exits)  ==>
+        { let mut vx_it = vx_into_iter(RECV); let mut vx_out = Vec::new(); loop { let Some(P) = vx_it.next() else { break; };
+          let vx_e = BODY; vx_extend(&mut vx_out, vx_e); } vx_out }     (the definition of flat_map + collect; BODY stays in place)"""
+        k0, _, bo, end, _ = self.fn_span(fn)
+        hits = list(re.finditer(r"\.\s*into_iter\s*\(\s*\)\s*\.\s*flat_map\s*\(", self.m[bo:end]))
+        if len(hits) < k:
+            raise Undecided("LOST-ANCHOR: R3 flat-map-collect-expr #%d in fn %s of %s" % (k, fn, self.where()))
+        h = hits[k - 1]
+        par = bo + h.end() - 1
+        p, bs, be, close = self._closure_after(par)
+        if re.search(r"\breturn\b|\?", self.m[bs:be]):
+            raise Undecided("R3 flat-map-collect-expr: the closure body leaves early (return / ?)")
+        mc = re.match(r"\s*\.\s*collect\s*\(\s*\)", self.m[close + 1:])
+        if not mc:
+            raise Undecided("R3 flat-map-collect-expr: `.collect()` expected after the closure")
+        cend = close + 1 + mc.end()
+        s0 = self._chain_start(bo + h.start())
+        recv = self.text[s0:bo + h.start()].strip()
+        self.rewrite(s0, bs, "{ let mut vx_it = vx_into_iter(%s);\n  let mut vx_out = Vec::new();/*@pre*/\n  loop\n  /*@loop*/\n  {\n    let Some(%s) = vx_it.next() else { break; };/*@body*/\n    let vx_e = " % (recv, p), "R3-flat-map-collect")
+        self.rewrite(be, cend, ";\n    vx_extend(&mut vx_out, vx_e);/*@tail*/\n  }\n  vx_out }", "R3-flat-map-collect")
+
     def r3_position_expr(self, fn, k):
         """tail expression `RECV.iter().position(|P| BODY)`  ==>  index loop returning the first index whose BODY holds:
         { let mut vx_pos = None; let mut vx_i = 0; while vx_i < RECV.len() { let P = &RECV[vx_i]; let vx_b = BODY;
